@@ -382,6 +382,13 @@ func (b *Builder) fill(t *rapid.T, v reflect.Value, depth int) {
 		}
 		p := reflect.New(rt.Elem())
 		b.fill(t, p.Elem(), depth+1)
+		if hasSet, _, ok := isWrapper(rt.Elem()); ok && hasSet && !p.Elem().FieldByName("Set").Bool() {
+			// *OptT (ogen's form of a recursive nullable optional member): nil already stands for
+			// "no value"; a pointer to an unset wrapper is a second spelling of it that the encoder
+			// does not expect (counted, see DESIGN.md Appendix A)
+			b.unsupported("excluded:pointer-to-unset-optional-wrapper")
+			return
+		}
 		v.Set(p)
 	case reflect.Slice:
 		n := 0
